@@ -122,6 +122,38 @@ fixed("F15c", "C15", "2d7c7b0",
       "FCFG.get_parse_tree shared mutable partial trees between Earley states: S -> b | S b gave trees with extra children / cycles for b b",
       {"kind": "fcfg", "f": {"start": "S", "sig": {"S": []},
                              "prods": [["S", {}, [["T", "b"]]], ["S", {}, [["V", "S", {}], ["T", "b"]]]]}})
+# ------------------------------------------------------------------ C16
+def fst(starts, finals, trans, pool="str"):
+    return {"starts": starts, "finals": finals, "trans": trans, "pool": pool}
+
+
+fixed("F16a", "C16", "790f657",
+      "FST.kleene_star did not compute the star: for s0 -a/x-> s1 (start s0, final s1) the pair (empty, empty) was missing",
+      {"kind": "fst", "f1": fst(["s0"], ["s1"], [["s0", "a", "s1", ["x"]], ["s1", "b", "s0", ["y"]]]),
+       "f2": fst(["s0"], ["s1"], [["s0", "a", "s1", ["x"]]])})
+fixed("F16b", "C16", "21b3a2d",
+      "FiniteAutomaton.to_fst wrote the token 'epsilon' on epsilon transitions",
+      {"kind": "fa", "fa": fa("enfa", [[0, None, 1], [1, "a", 2]], [0], [2])})
+fixed("F16c", "C16", "02edf19",
+      "FST.union/concatenate raised TypeError when both operands have the int state 0",
+      {"kind": "fst", "f1": fst([0], [1], [[0, "a", 1, ["x"]]], "int"), "f2": fst([0], [1], [[0, "b", 1, ["y"]]], "int")})
+# ------------------------------------------------------------------ C17
+fixed("F17a", "C17", "c5fda1d",
+      "IndexedGrammar.is_empty answered False for a grammar without any end rule (all consumption alternatives of a non-terminal skipped)",
+      {"dup": None, "perm": [0, 1, 2, 3], "reg": {"kind": "regex", "text": "a"}, "with_intersection": False,
+       "rules": [["prod", "S", "S", "f"], ["prod", "S", "A", "f"], ["cons", "f", "A", "S"], ["cons", "f", "A", "T"]]})
+fixed("F17b", "C17", "7908bd3",
+      "Rules(..., optim=4/5) raised KeyError('S') when S has no edge in the rule graph (single end rule)",
+      {"dup": None, "perm": [0], "reg": {"kind": "regex", "text": "a"}, "with_intersection": False,
+       "rules": [["end", "S", "a"]]})
+fixed("F17c", "C17", "ba7fc91",
+      "a duplicated consumption rule raised TypeError in ConsumptionRule.__eq__",
+      {"dup": 0, "perm": [0, 1], "reg": {"kind": "regex", "text": "a"}, "with_intersection": False,
+       "rules": [["cons", "f", "S", "A"], ["end", "A", "a"]]})
+fixed("F17d", "C17", "9cde3dd",
+      "IndexedGrammar.intersection raised AttributeError (pyformlang.regular_expression not imported) when the caller had not imported that submodule",
+      {"dup": None, "perm": [0], "reg": {"kind": "fa", "fa": fa("dfa", [[0, "a", 1]], [0], [1])}, "with_intersection": True,
+       "rules": [["end", "S", "a"]]})
 # ------------------------------------------------------------------ C06
 fixed("F06a", "C06", "2262869",
       "to_regex raised ValueError on automata with two start states",
